@@ -272,6 +272,9 @@ func init() {
 				"{% if v == 1 %}{% endif %}{% if v == 1 %}{% else %}{% endif %}{% switch v %}{% endswitch %}{% switch v %}{% case 1 %}{% default %}{% endswitch %}{% switch %}{% endswitch %}|", "{% for k, x := range v %}{%= k %}{%= x %}{% endfor %}", "{% for _, x := range v.a.b %}{%= x %}{% endfor %}",
 				"{% switch v %}{% case 1 %}a{% case \"b\" %}b{% default %}d{% endswitch %}", "{% ctx x = v %}{%= x %}", "{% ctx x, ok = v.a %}{%= ok %}", "{% counter v++ %}{%= v %}", "{% counter c = 1 %}{% counter c+5 %}{%= c %}",
 				"{%= v.a.b.c %}", "{%= v[v] %}", "{% for i := 0; i < 2; i++ %}{%= v[i] %}{%= v[v] %}{%= v[nope].x %}{% endfor %}", "{%j= v %}{%hh= v %}{%f.2= v %}{%F.3= v %}{%qq= v %}",
+				// len() / cap() / helpers with an EMPTY argument list in every place a condition can stand
+				"{%= len() ? v : v %}|{%= cap( ) ? v : v %}|{%= len(,) ? v : v %}", "{%= lenEq0() ? v : v %}{%= nosuchhelper() ? v : v %}", "{% if len() == 0 %}x{% endif %}{% if cap() > 1 %}y{% endif %}",
+				"{% for i := 0; i < 2; i++ %}{% break if len() > 0 %}{% continue if cap( ) == 0 %}{% lazybreak if len(,) >= 0 %}{% endfor %}", "{% switch %}{% case len() %}a{% case lenGt0() %}b{% endswitch %}",
 				// an if-ok tag WITHOUT a type for its new variable, and reads of that variable in both branches
 				"{% if x, ok := vok(v); ok %}{%= x %}{%= x.a %}{% if x == 1 %}e{% endif %}{% else %}[{%= x %}]{% endif %}", "{% if x, ok := vok(v); !ok %}{%= x.a.b %}{% else %}{%= x %}{% switch x %}{% case 1 %}o{% endswitch %}{% endif %}",
 				"{% if x, ok := vokmaybe(v); ok %}{% for _, e := range x %}{%= e %}{% endfor %}{%= x|default(1) %}{% endif %}{%= x %}", "{% if x, ok := nosuchhelper(v); ok %}{%= x %}{% else %}{%= x %}{% endif %}",
